@@ -17,6 +17,7 @@ mod http_req;
 mod ws_codec;
 mod fuzz_misc;
 mod udp_sys;
+mod http_sys;
 
 use std::collections::HashMap;
 
@@ -145,6 +146,8 @@ fn main() {
         "ws-codec" => ws_codec::run(&args),
         "fuzz-misc" => fuzz_misc::run(&args),
         "udp-sys" => udp_sys::run(&args),
+        "http-sys" => http_sys::run(&args),
+        "http-tracker" => http_sys::tracker_child(&args),
         "deep-json" => fuzz_misc::deep_json(&args),
         "config-refusal" => http_resp::run_refusal(&args),
         "export-child" => export_crash::child(&args),
